@@ -14,9 +14,9 @@ import time
 
 VERIF = os.path.dirname(os.path.dirname(os.path.abspath(__file__)))
 REPO = os.environ.get("VERIF_REPO", "/repo")
-LEAN = os.path.join(VERIF, "lean")
+LEAN = os.environ.get("VERIF_LEAN") or os.path.join(VERIF, "lean")
 HARNESS = os.path.join(VERIF, "harness")
-WORK = os.path.join(VERIF, ".work")
+WORK = os.environ.get("VERIF_WORK") or os.path.join(VERIF, ".work")
 DRIVER = os.path.join(LEAN, ".lake", "build", "bin", "driver")
 EXTRACT_BIN = os.path.join(WORK, "bin", "extract")
 
@@ -400,12 +400,16 @@ class Check:
 
     # ---------------------------------------------------------------- decide
     def known_findings(self):
-        p = os.path.join(VERIF, "known_findings.json")
-        try:
-            d = json.load(open(p))
-        except OSError:
-            return []
-        return [f for f in d.get("findings", []) if f.get("property") == self.prop and f.get("status") == "open"]
+        out = []
+        for p in [os.path.join(VERIF, "known_findings.json"), os.environ.get("VERIF_KNOWN_EXTRA")]:
+            if not p:
+                continue
+            try:
+                d = json.load(open(p))
+            except OSError:
+                continue
+            out += [f for f in d.get("findings", []) if f.get("property") == self.prop and f.get("status") == "open"]
+        return out
 
     def write_replay(self, kind, payload):
         d = os.path.join(VERIF, "replays", self.prop)
